@@ -215,6 +215,18 @@ BUILT = {
         note='Trusted: TLC, ModQ interpreter. Bounded: 4 ambient/incidence configurations (normal, two oblique incl. Brewster geometry, ambient 4/3), 4 media each, 5 (6) phase '
              'thicknesses, <= 1 (2) thin layers plus substrate. Absorbing layers (the R+T<=1 form) are outside the exact family and not covered.',
         technique='TLA+ spec (ThinFilm.tla: exact characteristic matrices over Q(i)) checked by TLC; exact r, t replayed into prysm.thinfilm'),
+    'C19': dict(
+        spec='RayTrace.tla, Rat.tla',
+        text='RayTrace.tla is the per-surface pipeline ToLocal -> Intersect -> Bend -> ToGlobal on exact rational 3-vectors, on a family constructed backwards from '
+             'the answer: rational points of planes, spheres and paraboloids (vertex included) with their rational unit normals, rays with Pythagorean angles of '
+             'incidence, refraction index ratios chosen so that the refracted angle is Pythagorean too, rational rotation matrices and decentres. TLC checks '
+             'the menu is sound (points on the surface, normals parallel to the gradient), unit lengths, the mirror law, the vector form of Snell\'s law and '
+             'the plane of incidence, rigidity and self-inverse of the frame transformation, and a second plane-mirror surface; the pinned gradient-as-normal '
+             'variant must violate Snell off axis. Every state is replayed into Surface.plane/sphere/conic + raytrace (one- and two-surface prescriptions) '
+             'and transform_to_local/global_coords and compared with the exact hit point and direction cosines; make_rotation_matrix frames are checked for rigidity.',
+        note='Trusted: TLC, numpy. Bounded: 11 hit geometries x 4 incidences x 9 bends x 3 (4) frames; Q-type and off-axis-conic surfaces are outside the rational '
+             'family (their sag/derivatives are bound through C07/C09). Known finding: rays so steep that they cross the vertex plane outside the sag domain return NaN.',
+        technique='TLA+ spec (RayTrace.tla: exact rational ray/surface geometry, Snell and mirror laws) checked by TLC; exact hit points and directions replayed into prysm.x.raytracing'),
 }
 
 NOT_BUILT_REASON = 'not built yet in this round (specification planned in DESIGN.md section 4; never decided by another technique)'
